@@ -93,7 +93,10 @@ AgreesWithRun ==
 Pat == CreatePattern([kind |-> "string", s |-> In, init |-> EmptyInit], Absent, FALSE)
 CompNames == {"protocol", "username", "password", "hostname", "port", "pathname", "search", "hash"}
 CbOf(c, p) ==
-  CASE c = "hostname" -> IF IsIPv6HostnamePattern(p.c.hostname.pattern) THEN "ipv6hostname" ELSE "hostname"
+  \* (the generated string of the hostname `\[` is `[`, too short for "is an IPv6 address": only the IPv6 callback can
+  \*  have let a leading '[' through, so a generated string that starts with '[' is re-parsed with it)
+  CASE c = "hostname" -> IF IsIPv6HostnamePattern(p.c.hostname.pattern) \/ (p.c.hostname.pattern # <<>> /\ p.c.hostname.pattern[1] = 91)
+                         THEN "ipv6hostname" ELSE "hostname"
     [] c = "pathname" -> IF ProtocolMatchesSpecial(p.c.protocol) THEN "pathname" ELSE "opaquepathname"
     [] OTHER -> c
 
